@@ -217,6 +217,29 @@ def run(ctx):
                     lines.append(tok_line(mode, idx, toks))
                     reals.append(f'{cls} {enc_text(out) if cls == "51" or mode == "rm-toks-1" and False else (enc_text(out) if cls == "51" else "*")}')
                     meta.append(scen)
+    # the Python side: ClexPass.transform installs exactly what the helper printed on 51 (also when that is nothing), leaves
+    # the file alone on 71
+    import realcode  # noqa: F401
+    from cvise.passes.clex import ClexPass
+    from cvise.passes.abstract import ProcessEventNotifier
+    for ti, text in enumerate(['x', 'x\n', 'x;', 'a b c', '"s" y', '#define A 1\nA A\n', 'int f(){}']):
+        for mode in ('rm-toks-1', 'rm-toks-2', 'rm-toks-3', 'rm-tok-pattern-4', 'rename-toks', 'delete-string'):
+            for idx in range(4):
+                toks, status, code, out, err = run_clex(exe, d, mode, idx, text, lexer, f'p{ti}.{mode}.{idx}')
+                src = d / f'py.{ti}.c'
+                src.write_bytes(text.encode('latin-1'))
+                tf = d / f'tok.py{ti}'
+                minilex.write_token_file(tf, toks, status)
+                os.environ['CLEX_TOKENS'] = str(tf)
+                os.environ['ASAN_OPTIONS'] = 'detect_leaks=0:abort_on_error=0:exitcode=99'
+                res, _ = ClexPass(mode, {'clex': str(exe)}).transform(str(src), idx, ProcessEventNotifier(None))
+                ctx.count()
+                now = src.read_bytes().decode('latin-1')
+                want = ('OK', out) if code == 51 else (('STOP', text) if code == 71 else None)
+                if want and (res.name, now) != want:
+                    ctx.report('driver-misreads-helper:' + mode.rstrip('0123456789-'), f'clex {mode} {idx} on {text!r}: exit {code}, output {out!r}; ClexPass returned {res.name} and the file holds {now!r}',
+                               {'kind': 'clexpass', 'mode': mode, 'idx': idx, 'text': text})
+    os.environ.pop('CLEX_TOKENS', None)
     outs = ctx.model(lines)
     for sc, r, m in zip(meta, reals, outs):
         mm = m.split(' ')
